@@ -20,6 +20,51 @@ from .core import Streams, run_seed, dumps, canon, uncanon, Outcome, HarnessErro
 from .shrink import shrink_plan
 
 FORMAT = 1
+MEM_CAP = 1200 << 20
+
+
+class RunTimeout(BaseException):
+    """Raised inside a run by the per-run watchdog (a hang in the code under test is a finding, not a harness error)."""
+
+
+def _alarm(signum, frame):
+    raise RunTimeout()
+
+
+def timed_execute(check, plan):
+    """check.execute under a wall-clock watchdog and an address-space cap; a run that exceeds either is
+    reported as a violation (kind 'hang' / 'memory'), not as a harness error."""
+    import gc
+    import resource
+    import signal
+    limit = getattr(check, "run_timeout", 20)
+    old = signal.signal(signal.SIGALRM, _alarm)
+    signal.setitimer(signal.ITIMER_REAL, limit)
+    why = None
+    soft, hard = resource.getrlimit(resource.RLIMIT_AS)
+    cap = MEM_CAP if hard == resource.RLIM_INFINITY else min(MEM_CAP, hard)
+    try:
+        # a runaway loop in the code under test must end in MemoryError / the watchdog, not in the OOM killer
+        resource.setrlimit(resource.RLIMIT_AS, (cap, hard))
+        return check.execute(plan)
+    except MemoryError:
+        why = "memory"
+    except RunTimeout:
+        why = "hang"
+    finally:
+        signal.setitimer(signal.ITIMER_REAL, 0)
+        signal.signal(signal.SIGALRM, old)
+        resource.setrlimit(resource.RLIMIT_AS, (soft, hard))
+    # the exception and the frames it kept alive are released here
+    gc.collect()
+    out = Outcome()
+    if why == "memory":
+        out.violate("memory", "run exhausted the 1.2 GB address-space cap (runaway allocation in the code under test)", "MemoryError")
+    else:
+        out.violate("hang", "run did not finish within %ds wall (simulated steps are bounded, so the code under test loops)" % limit,
+                    "plan executed for more than %d s" % limit)
+    out.digest = "hang"
+    return out
 
 
 class Check(object):
@@ -85,12 +130,12 @@ def _work(args):
     for index in indices:
         plan = make_plan(check, seed, index, tier)
         try:
-            out = check.execute(plan)
+            out = timed_execute(check, plan)
         except BaseException:
             return {"error": "index %d: %s" % (index, traceback.format_exc())}
-        if check.recheck_every and index % check.recheck_every == 0:
+        if check.recheck_every and index % check.recheck_every == 0 and out.digest != "hang":
             try:
-                out2 = check.execute(make_plan(check, seed, index, tier))
+                out2 = timed_execute(check, make_plan(check, seed, index, tier))
             except BaseException:
                 return {"error": "index %d (recheck): %s" % (index, traceback.format_exc())}
             if out2.digest != out.digest:
@@ -115,6 +160,8 @@ def _work(args):
             if seen_cls.get(c, 0) < 2:
                 seen_cls[c] = seen_cls.get(c, 0) + 1
                 agg["viol"].append((index, canon(v.plan if v.plan is not None else plan), v.to_json()))
+        if out.digest == "hang":
+            break   # one watchdog hit is enough for this chunk: the rest would only burn the chunk's wall budget
     faulthandler.cancel_dump_traceback_later()
     return agg
 
@@ -152,7 +199,7 @@ def _merge(total, agg):
 
 
 def execute_classes(check, plan):
-    out = check.execute(plan)
+    out = timed_execute(check, plan)
     return out, [v.cls() for v in out.violations]
 
 
@@ -304,7 +351,7 @@ def replay(check, path):
     with open(path) as f:
         plan = uncanon(json.load(f))
     exp = plan.get("expect", {})
-    out = check.execute(plan)
+    out = timed_execute(check, plan)
     want = exp.get("violation")
     got = [v for v in out.violations]
     if want:
@@ -340,6 +387,7 @@ def main(argv=None):
     ap.add_argument("--index", type=int, help="execute one generated run index and print its outcome")
     a = ap.parse_args(argv)
     seed = int(os.environ.get("VERIF_SEED", "0") or 0)
+
     try:
         mod = importlib.import_module("checks.%s" % a.pid.lower())
         check = mod.CHECK
